@@ -26,6 +26,8 @@ func verifStagedInc() {}
 
 func verifAckInc() {}
 
+func verifDeliveredInc() {}
+
 func verifYield(point int) {}
 
 func verifAdopt(id int) {}
